@@ -191,7 +191,7 @@ def pow2_paths(draw):
 @st.composite
 def deep_paths(draw):
     """open paths whose hop depth from an end point crosses 2**15 or 2**16"""
-    n = draw(st.sampled_from([32766, 32767, 32768, 32769, 32770, 32775, 32775, 33001, 65534, 65536, 65537, 65541]))
+    n = draw(st.sampled_from([32766, 32767, 32768, 32769, 32770, 32771, 32775, 33001, 32768, 32769, 32770, 65537]))
     stride = draw(st.sampled_from([1, 1, 7, 10007]))
     while math.gcd(n, stride) != 1:
         stride += 1
@@ -310,7 +310,7 @@ def scaled(V, s):
 
 @st.composite
 def edge_tree_case(draw):
-    if draw(st.integers(0, 149)) == 149:
+    if draw(st.integers(0, 249)) == 249:
         return draw(deep_edge_tree_case())
     mc = draw(any_mesh())
     mod = Model(mc)
@@ -340,7 +340,7 @@ def deep_edge_tree_case(draw):
         c["avoid"] = [sorted([path_id(n, s, pos), path_id(n, s, pos + 1)])]
         c["avoid_mode"] = "sparse"
     c.update(draw_forms(draw))
-    c.update({"root2": path_id(n, s, draw(st.sampled_from([n - 1, n // 2, 0]))) if draw(st.booleans()) else None, "root_np": draw(st.booleans()),
+    c.update({"root2": path_id(n, s, draw(st.sampled_from([n - 1, n // 2, 0]))) if draw(st.integers(0, 2)) == 0 else None, "root_np": draw(st.booleans()),
               "warm": False, "recycle": 0, "copies": False, "avoid_boundary2": draw(st.booleans()), "np_int": "int64"})
     return c
 
@@ -451,9 +451,10 @@ def cell_tree_case(draw):
 def forest_case(draw):
     what = draw(st.sampled_from(["edge", "edge", "face", "face", "cell"]))
     if what == "edge":
-        mc = draw(deep_paths()) if draw(st.integers(0, 199)) == 199 else draw(any_mesh())
+        deep = draw(st.integers(0, 399)) == 399
+        mc = draw(deep_paths()) if deep else draw(any_mesh())
         c = {"what": what, "mesh": mc, "forbidden": None, "mode": "none", "sort": draw(st.booleans()),
-             "twice": draw(st.booleans()), "warm": draw(st.integers(0, 2)) == 0}
+             "twice": draw(st.booleans()) and not deep, "warm": draw(st.integers(0, 2)) == 0}
         c.update(draw_forms(draw))
         return c
     if what == "face":
@@ -495,6 +496,23 @@ def variant_mesh(mc, seed):
 
 def construct_mesh(case, mc, mod, ctx=None):
     """the mouette mesh of the (expanded) mesh case mc, in the container forms asked by the case"""
+    cls, raw = prepare_mesh(case, mc, mod, ctx)
+    return cls(raw)
+
+
+def release_mesh(pm):
+    """drop a mesh for good: break its mesh <-> connectivity reference cycles so that it is freed at once (as a later garbage
+    collection would do), which makes its address available to the next mesh object"""
+    for a in ("connectivity", "boundary_connectivity"):
+        if hasattr(pm, a):
+            try:
+                setattr(pm, a, None)
+            except Exception:
+                pass
+
+
+def prepare_mesh(case, mc, mod, ctx=None):
+    """(mesh class, filled RawMeshData) for the (expanded) mesh case mc"""
     import mouette as M
     from mouette.mesh.mesh_data import RawMeshData
     lab = (lambda *a: ctx.label(*a)) if ctx is not None else (lambda *a: None)
@@ -519,14 +537,14 @@ def construct_mesh(case, mc, mod, ctx=None):
         raw.edges += [tuple(int(x) for x in e) if idx == "list" else row(e) for e in mod.edge_keys]
     if mc["kind"] == "polyline":
         raw.edges += [tuple(int(x) for x in e) if idx == "list" else row(e) for e in mc["E"]]
-        return M.mesh.PolyLine(raw)
+        return M.mesh.PolyLine, raw
     if mc["kind"] == "surface":
         raw.faces += [row(f) for f in mc["F"]]
-        return M.mesh.SurfaceMesh(raw)
+        return M.mesh.SurfaceMesh, raw
     if explicit:
         raw.faces += [row(f) for f in sorted(mod.face_keys)]
     raw.cells += [row(c) for c in mc["C"]]
-    return M.mesh.VolumeMesh(raw)
+    return M.mesh.VolumeMesh, raw
 
 
 def build(case, ctx, exercise=None):
@@ -540,19 +558,31 @@ def build(case, ctx, exercise=None):
     ctx.label("dup_warn=" + str(bool(case.get("dup_warn", False))))
     rounds = int(case.get("recycle", 0)) if (exercise is not None and len(mc["V"]) <= 3000) else 0
     if rounds:
-        # object recycling: meshes of the same size (other numbering) are built, spanned, dropped and collected one after the
-        # other, so that the mesh of this case is likely to be allocated where an earlier one lived
+        # object recycling: meshes of the same size (other numbering) are built, spanned and dropped one after the other; each is
+        # released immediately before the next mesh object is created, so that the next one (finally the mesh of this case) is
+        # likely to be allocated at the address where its predecessor lived
         ctx.label("recycled-mesh-objects")
+        pm = None
+        reused = False
         for r in range(rounds):
             vmc = variant_mesh(mc, int(case.get("recycle_seed", 0)) * 7 + r)
-            pm = construct_mesh(case, vmc, Model(vmc))
+            cls, raw = prepare_mesh(case, vmc, Model(vmc))
+            if pm is not None:
+                release_mesh(pm)
+                pm = None
+            pm = cls(raw)
             try:
                 exercise(pm)
             except Exception:
                 pass                                   # the predecessors are history only; the mesh of the case is what is judged
-            del pm
-            gc.collect()
-    m = construct_mesh(case, mc, mod, ctx)
+        cls, raw = prepare_mesh(case, mc, mod, ctx)
+        old = id(pm)
+        release_mesh(pm)
+        pm = None
+        m = cls(raw)
+        ctx.label("mesh-address-reused" if id(m) == old else "mesh-address-fresh")
+    else:
+        m = construct_mesh(case, mc, mod, ctx)
     if case.get("warm"):
         # the mesh object has been used before: connectivity and boundary caches exist, a persistent edge length is stored
         ctx.label("warm-mesh")
@@ -806,8 +836,10 @@ def check_spanning_tree(ctx, tag, tree, n, adm_links, root_expected, bfs=True, o
         bad = [(v, depth[v], hops[v]) for v in reached if depth[v] != hops[v]]
         ctx.check(not bad, tag + "bfs-depth", f"root {root}: (element, depth in tree, minimum hop distance) = {bad[:5]}")
     if ok:
-        check_traverse(ctx, tag, tree, parent, root, reached, depth, orders)
-        check_traverse_histories(ctx, tag, tree)
+        light = n > 20000                      # very long paths: one BFS traversal, no iterator histories (cost)
+        check_traverse(ctx, tag, tree, parent, root, reached, depth, ("BFS",) if light else orders)
+        if not light:
+            check_traverse_histories(ctx, tag, tree)
     return reached
 
 
@@ -1384,7 +1416,8 @@ def validate_forest(ctx, tag, mk, n, adm, fset, fsnap, forest=None):
         pos = {v: i for i, v in enumerate(nodes)}
         late = [(v, p) for v, p in seq if p is not None and pos[p] > pos[v]]
         ctx.check(not late, sig + "parents-first", f"forest.traverse('{order}') yields {late[:4]} before their parents")
-    check_traverse_histories(ctx, tag, forest)
+    if n <= 20000:
+        check_traverse_histories(ctx, tag, forest)
     return forest
 
 
@@ -1407,13 +1440,13 @@ def self_test():
 
 
 SUBCHECKS = [
-    SubCheck("edge_tree", edge_tree_case(), fn_edge_tree, quick=1500, thorough=2500),
+    SubCheck("edge_tree", edge_tree_case(), fn_edge_tree, quick=1500, thorough=2500, watchdog=(90, 180)),   # deep paths take seconds
     # if the orientation loop of the MST ever runs on a cyclic edge set it grows its queue without bound (~1 GB/s): memory is bounded by
     # memory_cap (a MemoryError becomes a violation); the shorter watchdog only stops the slowly growing variants early
     SubCheck("edge_mst", mst_case(), fn_mst, quick=1500, thorough=2500, watchdog=(10, 30)),
     SubCheck("face_tree", face_tree_case(), fn_face_tree, quick=1100, thorough=2000),
     SubCheck("cell_tree", cell_tree_case(), fn_cell_tree, quick=700, thorough=1500),
-    SubCheck("forests", forest_case(), fn_forest, quick=1100, thorough=2000),
+    SubCheck("forests", forest_case(), fn_forest, quick=1100, thorough=2000, watchdog=(90, 180)),
 ]
 
 def kf_mst_dense_attribute(case, violation):
